@@ -64,6 +64,8 @@ type c18Obs struct {
 	LostWhileUp bool   `json:"lost_while_up,omitempty"` // e2e: Disconnected before the harness ended the session
 	RawBad      string `json:"raw_bad,omitempty"`       // e2e over TLS: first thing on the socket that is not a TLS record
 	DetectUs    int64  `json:"detect_us,omitempty"`     // ws: from the cut to the Disconnected event
+	PanicMsg    string `json:"panic_msg,omitempty"`     // the keep-alive goroutine panicked with this
+	Re          *c18ReObs `json:"re,omitempty"`         // kind re: sessions and loops on one client object
 	Wire        string `json:"wire,omitempty"`          // tcp/e2e: what the server read in the XML stream where keep-alives go
 }
 
@@ -103,7 +105,7 @@ func kaWireSx(wire []byte, p int, exact bool) (Sx, int) {
 }
 
 type c18In struct {
-	Kind     string   `json:"kind"`               // run phase quitfirst fail badiv tcprun tcpfail conn e2e ws
+	Kind     string   `json:"kind"`               // run phase quitfirst fail badiv tcprun tcpfail conn e2e ws re
 	IvUs     int      `json:"iv_us"`              // interval, microseconds
 	Ticks    int      `json:"ticks,omitempty"`    // run/phase/tcprun: quit is closed after Ticks intervals ...
 	PhasePct int      `json:"phase,omitempty"`    // ... plus this percentage of one interval
@@ -113,6 +115,7 @@ type c18In struct {
 	Slow     bool     `json:"slow,omitempty"`     // tcpfail: nobody answers the stream close, Close sits out ConnectTimeout (1 s)
 	Script   [][2]int `json:"script,omitempty"`   // conn: (n, err?) returned by the successive conn.Write calls, then (len, nil); after an error every write fails
 	Recv     bool     `json:"recv,omitempty"`     // conn: a real Client receive loop blocked in Read on the same connection, sharing quit
+	Variant  string   `json:"variant,omitempty"`  // re: plain (drop, Resume) | staleclose (stream error, keep-alive fails while the receiver sits in Close, Resume) | hookfail (first Resume's PostResumeHook fails)
 	TLS      string   `json:"tls,omitempty"`      // e2e: "" plain TCP | verify (STARTTLS, RootCAs) | skip (STARTTLS, InsecureSkipVerify)
 	End      string   `json:"end,omitempty"`      // e2e: drop (server resets) | srvclose (server sends </stream:stream>) | disconnect (Client.Disconnect)
 	Suffix   []int    `json:"suffix,omitempty"`   // model only: what the schedule goes on offering (0 tick, 1 quit)
@@ -126,6 +129,10 @@ func init() { register(c18{}) }
 func (c18) ID() string    { return "C18" }
 func (c18) RunFn() string { return "run_C18" }
 func (c18) Workers() int  { return 8 }
+
+// Journal: a crash of a library goroutine (keepalive started by Client.Connect) kills the process; the
+// driver then finds the case through the per-worker journal.
+func (c18) Journal() bool { return true }
 func (c18) Rule() string {
 	return "keepalive goroutine (VerifKeepalive) on a recording stub transport, intervals 1-10 ms: run for T then close quit; quit closed at a random phase of the ticker (0-5 intervals + 0-99 %, incl. exactly on a tick); quit closed before the goroutine starts; Ping failing at the k-th call for every k in 1..10 x interval; interval 0 / negative. Real XMPPTransport over loopback TCP (scripted server records every byte after the stream header): healthy run, server resets / closes the connection after reading n bytes (Close waiting out its timeout or answered at once). Real XMPPTransport over a scripted net.Conn: every conn.Write / conn.Close call, scripted write results (short counts, errors; after an error the connection stays dead for writing while reads block), with and without a real Client receive loop blocked on the same connection and sharing quit: the connection must get closed after the failed keep-alive and the loss be reported (ErrorHandler, Disconnected). End to end: real Client.Connect (KeepaliveInterval 2-5 ms) against the scripted XMPP server (SASL PLAIN + bind), session up for T, then ended by a server reset / the server's </stream:stream> / Client.Disconnect at a random phase; Ping and Close calls logged by a wrapper around the client's transport, keep-alive bytes counted at the server; after the Disconnected event + grace nothing may be pinged for 10 more intervals; the same over real STARTTLS with the certificate verified (RootCAs) and with InsecureSkipVerify: the keep-alive bytes must show up in the DECRYPTED stream at the server, the raw socket must carry nothing but TLS records, the session must not be torn down while it is up. WebSocket transport end to end (loopback nhooyr.io/websocket server, RFC 7395 open exchange, keepalive + receive loop started as Client.Connect does): pings answered for T, then the TCP connection underneath is reset / closed: the failed keep-alive (a WebSocket ping control frame, not whitespace: only the closed-so-that-the-loss-is-reported clause is checked there) must lead to Close, ErrorHandler and Disconnected within 8 s. The model receives the observed schedule (successful pings before the terminating event, how the run ended) plus a random continuation and must reproduce the ordered log ping-ok/ping-failed/Close/loop-over, the number of keep-alives the server reads, the calls on the connection and the reporting of the loss. A keep-alive is compared as a CLASS: any non-empty run of XML white space (space, tab, CR, LF) written by one Ping, on the connection and in the stream the server reads; what happens for an interval <= 0 is outside the property and not compared beyond nothing-sent-nothing-closed; distinct = scenario parameters; non-trivial = at least 2 pings before the terminating event"
 }
@@ -269,6 +276,23 @@ func (c18) Gen(r *rand.Rand, tier string) []interface{} {
 			add(&c18In{Kind: "e2e", TLS: mode, End: []string{"drop", "disconnect"}[i%2], IvUs: 1000 * (2 + r.Intn(4)), Ticks: 8 + r.Intn(10), PhasePct: r.Intn(100)})
 		}
 	}
+	// reconnection on the same Client object: plain, after a stream error during which the keep-alive
+	// fails (ConnectTimeout 1 s: about 2 s per case), with a PostResumeHook that fails once
+	nre := 2
+	if thorough {
+		nre = 12
+	}
+	for i := 0; i < nre; i++ {
+		add(&c18In{Kind: "re", Variant: "plain", IvUs: 1000 * (3 + r.Intn(4)), Ticks: 5 + r.Intn(6)})
+		add(&c18In{Kind: "re", Variant: "hookfail", IvUs: 1000 * (3 + r.Intn(4)), Ticks: 5 + r.Intn(6)})
+	}
+	for i := 0; i < (nre+5)/6; i++ {
+		add(&c18In{Kind: "re", Variant: "staleclose", IvUs: 100000, Ticks: 2})
+	}
+	// a negative KeepaliveInterval through NewClient / Connect
+	add(&c18In{Kind: "e2e", End: "disconnect", IvUs: -1000})
+	// WebSocket: the application ends the session while a keep-alive ping awaits its pong
+	add(&c18In{Kind: "ws", End: "discping", IvUs: 20000})
 	// WebSocket transport: the TCP connection underneath is cut
 	nws := 1
 	if thorough {
@@ -293,16 +317,19 @@ func (c18) Decode(raw json.RawMessage) (interface{}, error) {
 type kaEv struct {
 	code int
 	at   time.Time
+	g    string // goroutine that made the call (one keep-alive loop = one goroutine)
 }
 type kaRec struct {
-	mu  sync.Mutex
-	evs []kaEv
+	mu       sync.Mutex
+	evs      []kaEv
+	panicMsg string
 }
 
 func (r *kaRec) add(code int) {
 	now := time.Now()
+	g := goid()
 	r.mu.Lock()
-	r.evs = append(r.evs, kaEv{code, now})
+	r.evs = append(r.evs, kaEv{code, now, g})
 	r.mu.Unlock()
 }
 func (r *kaRec) snapshot() []kaEv {
@@ -392,6 +419,9 @@ func kaStart(tr xmpp.Transport, rec *kaRec, iv time.Duration, quit chan struct{}
 		defer close(done)
 		defer func() {
 			if r := recover(); r != nil {
+				rec.mu.Lock()
+				rec.panicMsg = fmt.Sprint(r)
+				rec.mu.Unlock()
 				rec.add(kaPanic)
 			}
 		}()
@@ -474,6 +504,10 @@ func (c18) Run(inp interface{}) Sx {
 			obs, o = runKeepaliveConn(in, attempt)
 		} else if in.Kind == "e2e" {
 			obs, o = runKeepaliveE2E(in, attempt)
+		} else if in.Kind == "re" {
+			obs, o = runKeepaliveRe(in, attempt)
+		} else if in.Kind == "e2e" && in.IvUs <= 0 {
+			obs, o = runKeepaliveNegIv(in, attempt)
 		} else if in.Kind == "ws" {
 			obs, o = runKeepaliveWS(in, attempt)
 		} else {
@@ -494,6 +528,9 @@ func (c18) Run(inp interface{}) Sx {
 func (in *c18In) tooFewPings() bool {
 	switch in.Kind {
 	case "run", "phase", "tcprun", "conn", "e2e", "ws":
+		if in.IvUs <= 0 || in.End == "discping" {
+			return false
+		}
 		return in.Obs != nil && in.Obs.SetupErr == "" && in.nominal() >= 3 && in.Obs.NSucc < in.nominal()/3
 	}
 	return false
@@ -1139,6 +1176,10 @@ func runKeepaliveWS(in *c18In, attempt int) (Sx, *c18Obs) {
 	ln := &kaKeepListener{Listener: base}
 	ctx, cancel := context.WithCancel(context.Background())
 	defer cancel()
+	unmute := make(chan struct{})
+	if in.End != "discping" {
+		close(unmute)
+	}
 	hs := &http.Server{Handler: http.HandlerFunc(func(w http.ResponseWriter, r *http.Request) {
 		c, err := websocket.Accept(w, r, &websocket.AcceptOptions{Subprotocols: []string{"xmpp"}})
 		if err != nil {
@@ -1146,6 +1187,14 @@ func runKeepaliveWS(in *c18In, attempt int) (Sx, *c18Obs) {
 		}
 		c.SetReadLimit(1 << 20)
 		if c.Write(ctx, websocket.MessageText, []byte(`<open xmlns="urn:ietf:params:xml:ns:xmpp-framing" id="x" version="1.0"/>`)) != nil {
+			return
+		}
+		if _, _, err := c.Read(ctx); err != nil { // the client's <open/>
+			return
+		}
+		select { // a server that is slow to answer: pings stay in flight meanwhile
+		case <-unmute:
+		case <-ctx.Done():
 			return
 		}
 		for { // reading is what answers the client's pings
@@ -1162,7 +1211,7 @@ func runKeepaliveWS(in *c18In, attempt int) (Sx, *c18Obs) {
 		return setupErr("ws connect: " + err.Error())
 	}
 	rec := &kaRec{}
-	tr := &kaReal{Transport: inner, rec: rec, slow: true}
+	tr := &kaReal{Transport: inner, rec: rec, slow: true, attr: true}
 	var mu sync.Mutex
 	errCalls, discEvents := 0, 0
 	var discAt time.Time
@@ -1193,12 +1242,22 @@ func runKeepaliveWS(in *c18In, attempt int) (Sx, *c18Obs) {
 		defer close(recvDone)
 		xmpp.VerifRecv(client, quit)
 	}()
-	time.Sleep(time.Duration(in.Ticks) * iv)
+	if in.End == "discping" {
+		// the session is ended by the application while the first keep-alive ping awaits its pong
+		time.Sleep(iv + iv/2)
+	} else {
+		time.Sleep(time.Duration(in.Ticks) * iv)
+	}
 	mu.Lock()
 	lostWhileUp := discEvents > 0
 	mu.Unlock()
 	cutAt := time.Now()
-	ln.cut(in.Fin)
+	if in.End == "discping" {
+		go client.Disconnect()
+		time.AfterFunc(150*time.Millisecond, func() { close(unmute) })
+	} else {
+		ln.cut(in.Fin)
+	}
 	// pingTimeout in the library is 5 s; a cut connection should be noticed much faster
 	kaWaitDone(done, 8*time.Second)
 	kaWaitDone(recvDone, 2*time.Second)
@@ -1211,6 +1270,9 @@ func runKeepaliveWS(in *c18In, attempt int) (Sx, *c18Obs) {
 		o.DetectUs = discAt.Sub(cutAt).Microseconds()
 	}
 	mu.Unlock()
+	rec.mu.Lock()
+	o.PanicMsg = rec.panicMsg
+	rec.mu.Unlock()
 	return L(kaEvsSx(evs), L(), L(), L(Zi(o.ErrCalls), Zi(o.DiscEvents))), o
 }
 
@@ -1223,6 +1285,9 @@ func (c18) Input(inp interface{}) Sx {
 	o := in.Obs
 	if o == nil {
 		o = &c18Obs{}
+	}
+	if in.Kind == "re" {
+		return reInputSx(in, o)
 	}
 	term, failAt := 0, 0
 	switch in.Kind {
@@ -1264,7 +1329,7 @@ func (c18) Input(inp interface{}) Sx {
 	for i, s := range in.Suffix {
 		suf[i] = Zi(s & 1)
 	}
-	return L(Zi(in.IvUs), Zi(term), Zi(failAt), Zi(o.NSucc), LS(suf), Zi(mode), B(lossy), Zi(o.SrvN), LS(script), Zi(end))
+	return L(Zi(in.IvUs), Zi(term), Zi(failAt), Zi(o.NSucc), LS(suf), Zi(mode), B(lossy), Zi(o.SrvN), LS(script), Zi(end), B(in.Kind == "e2e"))
 }
 
 // ---- direct oracle: the property's own clauses on the observed log ----
@@ -1272,6 +1337,9 @@ func (c18) Input(inp interface{}) Sx {
 func (c18) Oracle(inp interface{}, obs Sx) (string, string) {
 	in := inp.(*c18In)
 	o := in.Obs
+	if in.Kind == "re" {
+		return reOracle(in, obs)
+	}
 	if o == nil || len(obs.L) != 4 {
 		return "no observation: " + obs.String(), "shape"
 	}
@@ -1302,7 +1370,11 @@ func (c18) Oracle(inp interface{}, obs Sx) (string, string) {
 		return "", ""
 	}
 	if cnt[kaPanic] > 0 {
-		return "the keep-alive goroutine panicked", "panic"
+		how := ""
+		if in.End == "discping" {
+			how = " (WebSocket session ended by Disconnect while a keep-alive ping awaited its pong; the failed ping is answered with a second Close)"
+		}
+		return "the keep-alive goroutine panicked: " + o.PanicMsg + how + " - in a Client this goroutine is the library's own and the panic ends the process", "keepalive-panic"
 	}
 	wire := []byte(o.Wire)
 	// once the loop is over nothing follows
@@ -1349,6 +1421,12 @@ func (c18) Oracle(inp interface{}, obs Sx) (string, string) {
 		if o.LostWhileUp {
 			return "WebSocket session reported lost while the connection was healthy", "session-lost-while-up"
 		}
+		if in.End == "discping" {
+			if o.DiscEvents < 1 {
+				return "WebSocket session ended by Disconnect: no Disconnected event", "loss-not-reported"
+			}
+			break
+		}
 		if firstFail < 0 {
 			return "TCP connection under the WebSocket cut, but no keep-alive failed within 8 s", "failure-not-reached"
 		}
@@ -1359,6 +1437,13 @@ func (c18) Oracle(inp interface{}, obs Sx) (string, string) {
 			return fmt.Sprintf("%d keep-alives in %d intervals (3 attempts)", pings, in.nominal()), "too-few-pings"
 		}
 	case "e2e":
+		if in.IvUs <= 0 {
+			// outside the property's intervals; what must hold: the client works, nothing crashes
+			if o.LostWhileUp || o.DiscEvents != 1 {
+				return fmt.Sprintf("KeepaliveInterval %d us: session not usable (lost while up: %v, %d Disconnected events after Disconnect)", in.IvUs, o.LostWhileUp, o.DiscEvents), "nonpositive-interval-session"
+			}
+			break
+		}
 		if o.LostWhileUp {
 			return fmt.Sprintf("session (tls=%q) torn down while it was up, after %d keep-alives (raw socket: %s)", in.TLS, pings, o.RawBad), "session-lost-while-up"
 		}
@@ -1503,6 +1588,10 @@ func (c18) Key(inp interface{}) (string, bool) {
 	if in.Kind == "conn" && in.Recv {
 		hist("conn-with-receive-loop")
 	}
-	k := fmt.Sprintf("%s iv%d t%d p%d k%d cut%d fin%v slow%v %v recv%v %s", in.Kind, in.IvUs, in.Ticks, in.PhasePct, in.FailAt, in.CutAfter, in.Fin, in.Slow, in.Script, in.Recv, in.End+in.TLS)
+	k := fmt.Sprintf("%s iv%d t%d p%d k%d cut%d fin%v slow%v %v recv%v %s", in.Kind, in.IvUs, in.Ticks, in.PhasePct, in.FailAt, in.CutAfter, in.Fin, in.Slow, in.Script, in.Recv, in.End+in.TLS+in.Variant)
+	if in.Kind == "re" {
+		hist("re:" + in.Variant)
+		return k, true
+	}
 	return k, n >= 2
 }
